@@ -312,13 +312,19 @@ Proof.
     induction l as [|[r nm] rest IHl]; intros Hp; [apply pres_ret; exact I|].
     inversion Hp as [|x l' Hx Hrest]; subst; cbn in Hx.
     eapply pres_bind; [apply pres_the_ref|intros fr _].
+    destruct (0 <? fr_refs fr)%Z; [|apply IHl; exact Hrest].
+    eapply pres_bind; [apply pres_incref|intros _ _].
     destruct (fr_parent fr); [|apply pres_panic].
     eapply pres_bind; [apply pres_the_ref|intros pfr _].
     eapply pres_bind; [apply pres_backend, renamed_ok; exact Hx|intros _ _].
-    apply IHl; exact Hrest.
-  - intros _ _. generalize (pn_kids p) as l. induction l as [|[nm c] rest IHl]; [apply pres_ret; exact I|].
-    eapply pres_bind; [apply IH|intros _ _]. exact IHl.
+    eapply pres_bind; [apply IHl; exact Hrest|intros hs _]. apply pres_ret; exact I.
+  - intros h1 _. eapply pres_bind with (Q := fun _ => True); [|intros h2 _; apply pres_ret; exact I].
+    generalize (pn_kids p) as l. induction l as [|[nm c] rest IHl]; [apply pres_ret; exact I|].
+    eapply pres_bind; [apply IH|intros a _]. eapply pres_bind; [exact IHl|intros b _]. apply pres_ret; exact I.
 Qed.
+
+Lemma pres_dec_all l : preserves (dec_all l) (fun _ => True).
+Proof. induction l as [|r t IH]; cbn [dec_all]; [apply pres_ret; exact I|]. eapply pres_bind; [apply pres_dec_ref_|intros _ _; exact IH]. Qed.
 
 Lemma pres_add_path_node_for n name c : preserves (add_path_node_for n name c) (fun _ => True).
 Proof.
@@ -345,7 +351,7 @@ Proof.
     apply pres_ret; exact I.
   - intros o _. destruct o; [|apply pres_ret; exact I].
     eapply pres_bind; [apply pres_add_path_node_for|intros _ _].
-    eapply pres_bind; [apply pres_gets|intros fuel _]. apply pres_notify_name_change.
+    eapply pres_bind; [apply pres_gets|intros fuel _]. eapply pres_bind; [apply pres_notify_name_change|intros held _; apply pres_dec_all].
 Qed.
 
 (** ---- walking ---- *)
